@@ -154,3 +154,8 @@ Theorem C18_includes_unnamed : forall load_file incs t,
   do_includes load_file incs t = Ok t.
 Proof. exact includes_unnamed. Qed.
 Print Assumptions C18_includes_unnamed.
+
+(* ---- a schema without include fields at any depth: the document is loaded as it is ---- *)
+Theorem C18_process_no_incs : forall load_file s t, no_incs s = true -> process load_file s t = Ok t.
+Proof. exact process_no_incs. Qed.
+Print Assumptions C18_process_no_incs.
